@@ -28,7 +28,7 @@ type guards struct {
 	okByMode, failByMode map[string]int
 	bSplit               int // corrupted runs in which one side succeeded and the other failed
 	bCases               int
-	cRejected, cControl  int
+	cRejected, cControl, cWarm int
 	dReuse, dSeqs        int
 	eCancelled, eYok     int
 	eConcExec            int
@@ -482,7 +482,11 @@ func (w *world) subC(g *guards) {
 	n := -1
 	for _, sc := range scs {
 		for _, verify := range []bool{true, false} {
-			for _, one := range []bool{false, true} {
+			for _, mode := range []int{0, 1, 2} { // whole reads; 1-byte reads; whole reads on a checker that accepted the genuine connection before
+				if mode == 2 && sc.control {
+					continue
+				}
+				one := mode == 1
 				n++
 				cred := F1
 				if sc.first == 1 {
@@ -490,6 +494,10 @@ func (w *world) subC(g *guards) {
 				}
 				ss := soloSpec{RoleOut: sc.roleOut, RemotePeer: sc.remote, Chunk: chunkSpec{One: one},
 					Real: sideCfg{Acct: sc.victim, Version: 2, Accept: ok, Verify: verify, CV: "victim/1.0"}}
+				if mode == 2 {
+					// the endpoint the frame was recorded from: A for F1, B for F2
+					ss.Warm, ss.WarmPeer = hexBytes(cred), []int{acA, acB}[sc.first]
+				}
 				if sc.roleOut {
 					ss.Script = []step{{Recv: true}, {Send: cred}, {Recv: true}, {Send: F4}}
 				} else {
@@ -501,6 +509,12 @@ func (w *world) subC(g *guards) {
 				c.Count("evaluations", 1)
 				c.Count("transitions", int64(len(r.Sent)+2))
 				desc := fmt.Sprintf("replay %q against a %s victim %s", sc.name, modeName(verify), accts[sc.victim].name)
+				if mode == 2 {
+					desc += " whose checker has seen the genuine connection before"
+					if r.WarmOK && verify {
+						g.cWarm++
+					}
+				}
 				if r.Hung || !r.Side.Returned {
 					c.Violation("c:no-return-by-deadline", desc+": the victim did not return by the fake deadline", rc)
 					continue
@@ -523,7 +537,7 @@ func (w *world) subC(g *guards) {
 				case verify:
 					g.cRejected++
 				}
-				st := fmt.Sprintf("c|%s|%v|%v|%s", sc.name, verify, one, errClass(r.Side))
+				st := fmt.Sprintf("c|%s|%v|%v|%s", sc.name, verify, mode, errClass(r.Side))
 				if c.Distinct("states", st) {
 					c.Distinct("distinct", fmt.Sprintf("c|%s|%v|%s", sc.name, verify, errClass(r.Side)))
 				}
